@@ -316,7 +316,7 @@ fn c03_plan(tier: Tier) -> Vec<Job> {
 pub fn c03() -> PropDef {
     PropDef {
         id: "C03",
-        subs: vec![("entry", c03_entry), ("conn", c03_conn)],
+        subs: vec![("entry", c03_entry), ("conn", c03_conn), ("raw", crate::props::raw::c03_raw)],
         plan: c03_plan,
         rule: "case = byte string (grammar-derived then mutated by bit flips/splices/NUL-CR-LF-0x80-0xFF injection/truncation, raw, header-like, or up to ~60 KiB) given to every public parsing entry point, or a connection driven by a generated call sequence (reads of any size, EAGAIN/EINTR/ECONNRESET/EOF, try_write under every stream behaviour, enqueue, clear, pop) that continues after every error; oracle = catch_unwind around every call (overflow checks and debug assertions on) + stream call counters (<=1 receive per try_read, <=1 write per try_write, 0 otherwise) + watchdog for non-termination; non-trivial = the input gets past the request line / header block accepted, or the sequence continues after >=1 error",
         assumptions: vec!["a hang is reported only after the case failed to finish within 30 s in the worker and again within 60 s alone in a fresh process"],
@@ -914,7 +914,7 @@ fn c11_e2_32_enum(tier: Tier, shard: u64, nshards: u64, f: &mut dyn FnMut(&[u64]
 }
 
 pub fn c11_conn_subs() -> Vec<(&'static str, SubFn)> {
-    vec![("ab", c11_ab), ("e2_32", c11_e2_32)]
+    vec![("ab", c11_ab), ("e2_32", c11_e2_32), ("raw", crate::props::raw::c11_raw)]
 }
 
 pub fn c11_conn_jobs(tier: Tier) -> Vec<Job> {
